@@ -129,15 +129,15 @@ pub fn s1(combo: u64, round: u64, rng: &mut Rng) -> Result<Scn, String> {
     let limit = if fwd { 32767 } else { 32768 };
     let need = v.saturating_sub(limit);
     // conditional branches need the stretch to get over the limit; goto/jsr can be far in the source already
-    let m = if class == 0 { if need > 0 { need + rng.below(5) as u32 } else if rng.bool() { 0 } else { 1 + rng.below(4) as u32 } } else if rng.chance(1, 3) { 0 } else { need.max(1) + rng.below(4) as u32 };
+    let m = if class == 0 { if need > 0 { need + 3 + rng.below(5) as u32 } else if rng.bool() { 0 } else { 1 + rng.below(4) as u32 } } else if rng.chance(1, 3) { 0 } else { need.max(1) + rng.below(4) as u32 };
     let pressure = if m > 0 { 256 + rng.below(80) } else { rng.below(3) * 130 };
     let stretch = m > 0;
     let x = x_const(rng);
     let pre = rng.below(4) as u32;
-    let sw_before = rng.below(3); let sw_after = rng.below(3);
+    let sw_before = rng.below(3); let sw_after0 = rng.below(3);
     let p1 = rng.below(2000) as u32;
     let seed = rng.next_u64();
-    let build = |mid: u32| -> Result<(Sb, usize, u32, Vec<u32>), String> {
+    let build = |mid: u32, sw_after: usize| -> Result<(Sb, usize, u32, Vec<u32>), String> {
         let mut r = Rng::new(seed);
         let mut b = Sb::new();
         let (lj, la, lt, lta, lmid) = (b.label(), b.label(), b.label(), b.label(), b.label());
@@ -161,16 +161,29 @@ pub fn s1(combo: u64, round: u64, rng: &mut Rng) -> Result<Scn, String> {
         let anchors = vec![b.at(start), b.at(lj), b.at(la), b.at(lt), b.at(lta), b.at(lmid)];
         Ok((b, jump, lt, anchors))
     };
-    let mut mid: i64 = v as i64 - 4 * m as i64 - p1 as i64 - 64;
     let mut done = None;
-    for _ in 0..12 {
-        if mid < 0 { return Err("s1: negative padding".into()); }
-        let (b, jump, lt, anchors) = build(mid as u32)?;
-        let insns = b.finish()?;
-        let lay = ref_layout(&insns, &|_| stretch, false);
-        let d = (lay.offs[b.at(lt) as usize] as i64 - lay.offs[jump] as i64).abs();
-        if d == v as i64 { done = Some((insns, anchors, jump)); break; }
-        mid += v as i64 - d;
+    let mut sw_after = sw_after0;
+    // a switch right behind a forward jump can make the exact distance unreachable (its padding differs between the
+    // 3-byte and the long form, and the writer keeps the 3-byte form when that one fits): then the same case without it
+    'variant: for sa in [sw_after0, 0] {
+        sw_after = sa;
+        let mut mid: i64 = v as i64 - 4 * m as i64 - p1 as i64 - 64;
+        for _ in 0..12 {
+            if mid < 0 { return Err("s1: negative padding".into()); }
+            let (b, jump, lt, anchors) = build(mid as u32, sa)?;
+            let insns = b.finish()?;
+            // distance in the final layout: the jump itself needs its long form there when v is over the limit, which moves
+            // a switch right behind it; d = the offset a 3-byte form ending where the written jump ends would need
+            let mut forced = vec![false; insns.len()]; forced[jump] = v > limit;
+            let lay = layout_with(&insns, &|_| stretch, &forced);
+            let own = lay.offs[jump + 1] as i64 - lay.offs[jump] as i64;
+            let d = if fwd { lay.offs[b.at(lt) as usize] as i64 - lay.offs[jump] as i64 - (own - 3) } else { lay.offs[jump] as i64 - lay.offs[b.at(lt) as usize] as i64 };
+            if d == v as i64 {
+                if ref_layout(&insns, &|_| stretch, true).widened != forced { continue 'variant; }
+                done = Some((insns, anchors, jump)); break 'variant;
+            }
+            mid += v as i64 - d;
+        }
     }
     let (insns, anchors, jump) = done.ok_or("s1: distance did not converge")?;
     let mut code = Code { max_stack: 4, max_locals: 1200, insns, ..Default::default() };
@@ -276,15 +289,17 @@ pub fn s2b(rng: &mut Rng) -> Result<Scn, String> {
     };
     let mut mid: i64 = 32768 - 3 * m as i64 - 3000 - 20 * n as i64 - 400;
     let mut done = None;
-    for _ in 0..12 {
+    for it in 0..12 {
         if mid < 0 { return Err("s2b: negative padding".into()); }
         let (b, placed, anchors) = build(mid as u32)?;
         let insns = b.finish()?;
         let lay = ref_layout(&insns, &|_| false, false); // source distances (1-byte ldc index)
         let mut excess = i64::MIN;
         for (j, l, fwd) in &placed { let d = lay.offs[b.at(*l) as usize] as i64 - lay.offs[*j] as i64; excess = excess.max(if *fwd { d - 32767 } else { -d - 32768 }); }
-        if excess == 0 { done = Some((insns, anchors)); break; }
-        mid -= excess;
+        // the tightest jump sits 0..3 bytes inside the limit; after the first coarse step the padding only moves in
+        // multiples of 4 so that no switch changes its alignment any more
+        if (-3..=0).contains(&excess) { done = Some((insns, anchors)); break; }
+        if it == 0 { mid -= excess; } else if excess > 0 { mid -= (excess + 3) / 4 * 4; } else { mid += (-excess) / 4 * 4; }
     }
     let (insns, anchors) = done.ok_or("s2b: distance did not converge")?;
     let widened = ref_layout(&insns, &|_| true, true).widened.iter().filter(|x| **x).count();
